@@ -757,7 +757,7 @@ func r11Progress(c *an.Ctx) {
 			mentions := false
 			ast.Inspect(is.Cond, func(m ast.Node) bool {
 				if ix, ok := m.(*ast.IndexExpr); ok {
-					ast.Inspect(ix.Index, func(k ast.Node) bool {
+					ast.Inspect(an.ResolveLocal(info, f.Decl.Body, ix.Index), func(k ast.Node) bool {
 						if id, ok := k.(*ast.Ident); ok && info.Uses[id] == visited {
 							mentions = true
 						}
